@@ -22,9 +22,7 @@ private theorem dec_natCast_le (a b : Nat) : decide ((a : Int) ≤ (b : Int)) = 
 /-! ### the comparator (C03, C07) -/
 
 theorem moreValuable_leaves :
-    Gen.moreValuable_leaves = ["wrappedTx.PricePerUnit : Int", "otherTransaction.PricePerUnit : Int", "wrappedTx.Tx.GetGasLimit() : Int",
-      "otherTransaction.Tx.GetGasLimit() : Int", "wrappedTx.TxHash : Bytes", "otherTransaction.TxHash : Bytes",
-      "wrappedTx.computeExactPricePerUnit() : Int", "otherTransaction.computeExactPricePerUnit() : Int"] := rfl
+    Gen.moreValuable_leaves = ["otherTransaction.PricePerUnit : Int", "otherTransaction.Tx.GetGasLimit() : Int", "otherTransaction.TxHash : Bytes", "otherTransaction.computeExactPricePerUnit() : Int", "wrappedTx.PricePerUnit : Int", "wrappedTx.Tx.GetGasLimit() : Int", "wrappedTx.TxHash : Bytes", "wrappedTx.computeExactPricePerUnit() : Int"] := rfl
 
 /-- the saturating 64-bit field `PricePerUnit` -/
 def sat64 (n : Nat) : Int := if n < 18446744073709551615 then (n : Int) else 18446744073709551615
@@ -39,8 +37,7 @@ theorem cmpBytes_lt (a b : Bytes) : decide (Gen.cmpBytes a b < 0) = bytesLt a b 
     both are saturated — IS the model's comparator on the exact (unbounded) price per unit: PPU ↓, gas limit ↓, hash ↑ -/
 theorem moreValuable_eq (a b : TxCache.Tx) :
     TxCache.moreValuable TxCache.Variant.current a b =
-      Gen.moreValuable (sat64 (a.ppu TxCache.Variant.current)) (sat64 (b.ppu TxCache.Variant.current))
-        a.gasLimit b.gasLimit a.hash b.hash (a.ppu TxCache.Variant.current) (b.ppu TxCache.Variant.current) := by
+      Gen.moreValuable (wrappedTx_PricePerUnit := (sat64 (a.ppu TxCache.Variant.current))) (otherTransaction_PricePerUnit := (sat64 (b.ppu TxCache.Variant.current))) (wrappedTx_Tx_GetGasLimit := a.gasLimit) (otherTransaction_Tx_GetGasLimit := b.gasLimit) (wrappedTx_TxHash := a.hash) (otherTransaction_TxHash := b.hash) (wrappedTx_computeExactPricePerUnit := (a.ppu TxCache.Variant.current)) (otherTransaction_computeExactPricePerUnit := (b.ppu TxCache.Variant.current)) := by
   have hgl : (decide ((a.gasLimit : Int) ≠ (b.gasLimit : Int))) = decide (a.gasLimit ≠ b.gasLimit) := by
     apply decide_eq_decide.mpr; omega
   have hgl2 : (decide ((a.gasLimit : Int) > (b.gasLimit : Int))) = decide (a.gasLimit > b.gasLimit) := by
@@ -73,7 +70,7 @@ theorem pricePerUnit_leaves : Gen.pricePerUnit_leaves = ["fee : Int", "gasLimit 
     64-bit field the comparator reads first; together with `moreValuable_eq` (exact quotients compared when saturated) the
     ordering is by the exact, unbounded price per unit -/
 theorem pricePerUnit_eq (t : TxCache.Tx) (hg : t.gasLimit ≠ 0) :
-    Gen.pricePerUnit t.fee t.gasLimit = sat64 (t.ppu TxCache.Variant.current) := by
+    Gen.pricePerUnit (fee := t.fee) (gasLimit := t.gasLimit) = sat64 (t.ppu TxCache.Variant.current) := by
   have hp : t.ppu TxCache.Variant.current = t.fee / t.gasLimit := by
     unfold TxCache.Tx.ppu; simp [TxCache.Variant.current, hg]
   rw [hp]
